@@ -59,6 +59,7 @@ func ca() {
 
 type response struct {
 	Fail      bool
+	Bad       string        // the issuer answers, but with something the client must refuse: empty | noid | badid | twoids | anchors-fail (the trust-anchor source fails for this fetch; only consulted with an identity directory)
 	NotBefore time.Duration // offset of NotBefore from the instant of the request (may be negative)
 	Validity  time.Duration
 }
@@ -66,6 +67,9 @@ type response struct {
 func (r response) String() string {
 	if r.Fail {
 		return "fail"
+	}
+	if r.Bad != "" {
+		return "bad(" + r.Bad + ")"
 	}
 	return fmt.Sprintf("cert(nb%+v,valid=%v)", r.NotBefore, r.Validity)
 }
@@ -87,6 +91,7 @@ type issuer struct {
 	reqs    []request
 	gate    chan struct{} // if non-nil the first request blocks on it
 	serial  int64
+	dirMode bool // an identity directory is configured (so the trust anchors are fetched with every certificate)
 }
 
 func (is *issuer) fn(ctx context.Context, csrDER []byte) ([]*x509.Certificate, error) {
@@ -119,13 +124,30 @@ func (is *issuer) fn(ctx context.Context, csrDER []byte) ([]*x509.Certificate, e
 	if resp.Fail {
 		return nil, errors.New("verif: scripted issuer failure")
 	}
+	if resp.Bad == "empty" {
+		return []*x509.Certificate{}, nil
+	}
 	now := time.Now()
 	is.mu.Lock()
 	is.serial++
 	serial := is.serial
 	is.mu.Unlock()
 	id, _ := url.Parse("spiffe://example.org/ns/verif/app")
-	tmpl := &x509.Certificate{SerialNumber: big.NewInt(serial), NotBefore: now.Add(resp.NotBefore), NotAfter: now.Add(resp.NotBefore + resp.Validity), URIs: []*url.URL{id},
+	uris := []*url.URL{id}
+	switch resp.Bad {
+	case "noid":
+		uris = nil
+	case "badid":
+		u, _ := url.Parse("https://example.org/ns/verif/app")
+		uris = []*url.URL{u}
+	case "twoids":
+		u, _ := url.Parse("spiffe://example.org/ns/verif/other")
+		uris = []*url.URL{id, u}
+	}
+	if resp.Validity == 0 {
+		resp.Validity = time.Hour
+	}
+	tmpl := &x509.Certificate{SerialNumber: big.NewInt(serial), NotBefore: now.Add(resp.NotBefore), NotAfter: now.Add(resp.NotBefore + resp.Validity), URIs: uris,
 		KeyUsage: x509.KeyUsageDigitalSignature}
 	der, err := x509.CreateCertificate(rand.Reader, tmpl, caCert, pub, caKey)
 	if err != nil {
@@ -135,8 +157,9 @@ func (is *issuer) fn(ctx context.Context, csrDER []byte) ([]*x509.Certificate, e
 	if err != nil {
 		return nil, err
 	}
+	accepted := resp.Bad == "" || (resp.Bad == "anchors-fail" && !is.dirMode)
 	is.mu.Lock()
-	is.reqs[idx].ok, is.reqs[idx].serial, is.reqs[idx].nb, is.reqs[idx].na = true, serial, leaf.NotBefore, leaf.NotAfter
+	is.reqs[idx].ok, is.reqs[idx].serial, is.reqs[idx].nb, is.reqs[idx].na = accepted, serial, leaf.NotBefore, leaf.NotAfter
 	is.mu.Unlock()
 	return []*x509.Certificate{leaf}, nil
 }
@@ -156,6 +179,9 @@ func (a anchors) GetX509BundleForTrustDomain(spiffeid.TrustDomain) (*x509bundle.
 func (a anchors) CurrentTrustAnchors(context.Context) ([]byte, error) {
 	a.is.mu.Lock()
 	defer a.is.mu.Unlock()
+	if i := len(a.is.reqs) - 1; i < len(a.is.script) && a.is.script[i].Bad == "anchors-fail" {
+		return nil, errors.New("verif: scripted trust-anchor failure")
+	}
 	v := fmt.Sprintf("trust-anchors-for-request-%d\n", len(a.is.reqs)-1)
 	a.is.reqs[len(a.is.reqs)-1].anchors = v
 	return []byte(v), nil
@@ -372,7 +398,7 @@ func runRenew(t *testing.T, c renewCase) (out renewOutcome, err error) {
 		defer os.RemoveAll(scratch)
 	}
 	berr := vk.Bubble(t, c.String(), func() {
-		is := &issuer{script: c.Script}
+		is := &issuer{script: c.Script, dirMode: c.Dir}
 		opts := spiffe.Options{Log: qlog, RequestSVIDFn: is.fn}
 		target := ""
 		if c.Dir {
@@ -587,7 +613,11 @@ func TestRenewal(t *testing.T) {
 		n := rapid.IntRange(0, 6).Draw(rt, "nscript")
 		for i := 0; i < n; i++ {
 			if rapid.IntRange(0, 2).Draw(rt, "fail") == 0 {
-				c.Script = append(c.Script, response{Fail: true})
+				if rapid.Bool().Draw(rt, "refusedAnswer") {
+					c.Script = append(c.Script, response{Bad: rapid.SampledFrom([]string{"empty", "noid", "badid", "twoids", "anchors-fail"}).Draw(rt, "bad"), Validity: rapid.SampledFrom(valid).Draw(rt, "badValidity")})
+				} else {
+					c.Script = append(c.Script, response{Fail: true})
+				}
 				continue
 			}
 			v := rapid.SampledFrom(valid).Draw(rt, "validity")
@@ -615,6 +645,11 @@ func TestRenewal(t *testing.T) {
 		var cls []string
 		if out.failures > 0 {
 			cls = append(cls, "renewal-failure")
+		}
+		for _, r := range c.Script {
+			if r.Bad != "" {
+				cls = append(cls, "issuer-answer-refused."+r.Bad)
+			}
 		}
 		if out.successes >= 2 {
 			cls = append(cls, ">=2-renewals")
